@@ -251,8 +251,17 @@ def run(R):
               "strictly decreasing), all (lambda_1, lambda_2) in 1..n drawn uniformly, n<=6 quick / <=8 thorough plus Latin-block compositions; "
               "stability by direct check, optimality for the simulated values by brute force (n<=6) and by a z3 dual certificate checked by the "
               "Lean smCertOk; simulated profiles compared with the Lean two-sided fill. Ambiguous = a value within 1e-9 of a float threshold.")
-    R.assumptions = ["Irving is certified per output, not modelled", "thresholds are the exact rationals of float(n ** (l/(lambda+1)))"]
-    items = gen(R, 8 if R.thorough else 6, 3000 if R.thorough else 600)
+    R.rule += (" A third of the random instances have opposed interests (many rotations), a sixth have values up to 2e9; the corpus (past failing inputs) runs first; "
+               "the final answer and, for n <= 8 (always in the thorough tier), every internal stage of the Irving step on the simulated values are compared with the Lean mirror.")
+    R.assumptions = ["thresholds are the exact rationals of float(n ** (l/(lambda+1)))",
+                     "the z3 dual certificate is only a certificate producer: it is checked by the Lean smCertOk"]
+    import os
+    from harness.common import VERIF
+    path = os.path.join(VERIF, "corpus", "C17.jsonl")
+    items = [dict(json.loads(l), tag="corpus") for l in open(path) if l.strip()] if os.path.exists(path) else []
+    for it in items:
+        it.pop("note", None)
+    items += gen(R, 8 if R.thorough else 6, 3000 if R.thorough else 600)
     items += gen_blocks(R, 200 if R.thorough else 16)
     # the maximum-weight-closed-subset stage of the pipeline, driven directly on random rotation posets (as in C03's check)
     from harness import c03
